@@ -126,10 +126,16 @@ class Model:
         return self.exists(name) and self.owner.get(name) in ("user", "redo-overridden")
 
     # -- from-scratch evaluation ----------------------------------------------
-    def evaluate(self, name, _stack=()):
-        """Bytes a from-scratch build would give `name`, or FAIL."""
+    def evaluate(self, name, _stack=(), shallow=False, _top=True):
+        """Bytes a from-scratch build would give `name`, or FAIL.  With shallow=True the dependencies' *current*
+        bytes are used instead of their from-scratch bytes (what an incremental build of `name` produces once its
+        dependencies have been brought up to date)."""
         if name in _stack:
             return FAIL
+        if shallow and not _top:
+            if name in self.variant:
+                return None if self.variant[name] is None else "do:%s:%d" % (name, self.variant[name])
+            return self.content.get(name) if self.exists(name) else FAIL
         if name in self.variant:
             return None if self.variant[name] is None else "do:%s:%d" % (name, self.variant[name])
         if self.is_sourcelike(name):
@@ -142,7 +148,7 @@ class Model:
         c = ""
 
         def dep(d):
-            v = self.evaluate(d, st)
+            v = self.evaluate(d, st, shallow=shallow, _top=False)
             return v
 
         def text(v):
@@ -208,8 +214,11 @@ class Model:
             groups.append(("w", [wpath]))
         for wpath in spec.ifcreate_raw:
             groups.append(("wraw", [wpath]))
+        if spec.seq:
+            groups.append(("seq", spec.seq))
         if spec.fail:
-            groups.append(("m", [spec.fail]))
+            if not spec.fail_undeclared:
+                groups.append(("m", [spec.fail]))
             groups.append(("failcheck", spec.fail))
         return groups
 
@@ -360,6 +369,7 @@ class RefBuild:
         consulted only to resolve MAYBE decisions. Returns dict(ok, ran, ambiguous, slack)."""
         self.observed = set(observed)
         self.slack = []
+        self.seq_results = {}
         self.overbuilt = []
         self.no_oob = False
         self.done = {}          # name -> 'ok' | 'fail'
@@ -370,7 +380,7 @@ class RefBuild:
         ok = True
         ok = self.request_list(list(targets), forced=(cmd == "redo"))
         return {"ok": ok, "ran": list(self.ran), "ambiguous": self.ambiguous, "slack": list(self.slack),
-                "overbuilt": list(self.overbuilt)}
+                "overbuilt": list(self.overbuilt), "seq": dict(self.seq_results)}
 
     def request_list(self, names, forced=False, parent=None):
         """One redo / redo-ifchange invocation naming `names`, processed left to right."""
@@ -417,6 +427,21 @@ class RefBuild:
                 and not m.is_sourcelike(X) and m.rule_for(X) is not None
             if not refire:
                 return self.done[X] == "ok"
+            r = self.execute(X, m.rule_for(X))
+            if not r:
+                # X was fine earlier in this run and has now failed: whatever was built from it earlier in the
+                # run can no longer be answered "already done"
+                bad = {X}
+                grew = True
+                while grew:
+                    grew = False
+                    for T, seen in m.seen.items():
+                        if T not in bad and self.done.get(T) == "ok" and any(d in bad for d in seen):
+                            bad.add(T)
+                            grew = True
+                for T in bad - {X}:
+                    self.done.pop(T, None)
+            return r
         if X in m.variant:  # a .do file is always a plain source
             if not m.exists(X):
                 self.done[X] = "fail"
@@ -535,6 +560,18 @@ class RefBuild:
                     newseen[wpath] = ("c", None)
                 if not okay:
                     break
+            elif kind == "seq":
+                res = []
+                for cmd, names in payload:
+                    if cmd == "ifchange":
+                        for d in names:
+                            newseen[d] = ("m", None)
+                    r_ok = self.request_list(list(names), forced=(cmd == "redo"), parent=X)
+                    res.append(bool(r_ok))
+                    if cmd == "ifchange":
+                        for d in names:
+                            newseen[d] = ("m", m.ver.get(d, 0))
+                self.seq_results[X] = res
             elif kind == "failcheck":
                 if (m.content.get(payload) or "").rstrip("\n") == "1":
                     okay = False
@@ -545,7 +582,7 @@ class RefBuild:
             self.done[X] = "fail"
             # a failed build leaves the previous file in place
             return False
-        v = m.evaluate(X)
+        v = m.evaluate(X, shallow=True)
         if v is FAIL:
             # only possible in cyclic graphs (a dependency was answered "clean" from inside its own build);
             # a from-scratch build cannot succeed there, so neither can this one
